@@ -89,7 +89,7 @@ class IntervalGrader(SingleListGrader):
         Validate the IntervalGrader's configuration.
         """
         # Step 1: Provide the default subgrader
-        use_config = config if config else kwargs
+        use_config = dict(config) if config else kwargs
         if use_config.get('subgrader') is None:
             use_config['subgrader'] = NumericalGrader(tolerance=1e-13, allow_inf=True)
 
